@@ -17,6 +17,7 @@ import re
 import os.path
 import unicodedata
 from collections.abc import Iterator
+from copy import copy
 from decimal import Decimal, DecimalException
 from string import ascii_letters
 from typing import cast, Any, Optional, Union, NoReturn
@@ -798,9 +799,10 @@ def evaluate__deep_equal(self: XPathFunction, context: ta.ContextType = None) ->
     else:
         collation = self.get_argument(context, 2, required=True, cls=str)
 
+    # The two operands are consumed in lockstep: each one needs its own focus
     return deep_equal(
-        seq1=self[0].select(context),
-        seq2=self[1].select(context),
+        seq1=self[0].select(copy(context)),
+        seq2=self[1].select(copy(context)),
         collation=collation,
     )
 
